@@ -646,6 +646,9 @@ pub fn build(quick: bool) -> Vec<Scenario> {
         // one waiter times out / is cancelled while a single notify_one races: the other waiter must get it
         v.push(mk_cv(w, &[('C', "T"), ('C', "W")], "nn", None));
         v.push(mk_cv(w, &[('C', "W"), ('C', "W")], "nn", Some(0)));
+        // the cancelled waiter sits in wait_timeout (its own error path): it must not keep the mutex
+        v.push(mk_cv(w, &[('C', "T"), ('C', "W")], "nn", Some(0)));
+        v.push(mk_cv(w, &[('C', "T"), ('T', "W")], "nn", Some(0)));
         v.push(Scenario::new("C11", "condvar_forward", format!("condvar.forward.timeout.w{}", w), Arc::new(move |e| cv_forward(e, w, false, false))).t2().vt_horizon(50_000_000));
         v.push(Scenario::new("C11", "condvar_forward", format!("condvar.forward.cancel.w{}", w), Arc::new(move |e| cv_forward(e, w, true, false))).vt_horizon(50_000_000));
         v.push(Scenario::new("C11", "condvar_forward", format!("condvar.forward.timeout.notifier_holds_mutex.w{}", w), Arc::new(move |e| cv_forward(e, w, false, true))).vt_horizon(50_000_000));
